@@ -246,6 +246,13 @@ pub fn compare_view(buf: &[u8], msg: &Message, view: &RefView, check_prop: &str)
             }
             return Err(Violation::new("C02", "attribute_sequence", "iter_attributes_before_integrity", msg));
         }
+        // iteration that *ends early* — everything it yielded is right, but attributes the buffer
+        // encodes and the exposure rule exposes (a FINGERPRINT, a SHA-256 attribute directly after the
+        // SHA-1 one) are missing — contradicts C02's "the ordered attribute sequence ... exactly those
+        // encoded" as much as C10's "the FINGERPRINT is always exposed": reported under whichever is checked
+        if check_prop == "C02" && i == got.len() && got.len() < want.len() {
+            return Err(Violation::new("C02", "attribute_sequence", "iteration_ends_early", msg));
+        }
         return Err(Violation::new("C10", "exposure", &tail_shape(view), msg));
     }
     // the same exposure however the iterator is driven (nth / skip / step_by / last / count)
@@ -276,6 +283,27 @@ pub fn compare_view(buf: &[u8], msg: &Message, view: &RefView, check_prop: &str)
             let want_k: Vec<u16> = want[k..].iter().map(|w| w.0).collect();
             if got_k != want_k {
                 return Err(bad(format!("skip({k})")));
+            }
+        }
+        // an iterator stepped by hand and then finished by a folding consumer (fold / count / last)
+        for k in 1..=n.min(5) {
+            let mut it = msg.iter_attributes();
+            for _ in 0..k {
+                it.next();
+            }
+            let got_f: Vec<u16> = it.fold(vec![], |mut v, a| {
+                v.push(a.get_type().value());
+                v
+            });
+            let want_k: Vec<u16> = want[k..].iter().map(|w| w.0).collect();
+            if got_f != want_k {
+                return Err(bad(format!("next() x{k} then fold()")));
+            }
+            if msg.iter_attributes().skip(k).count() != n - k {
+                return Err(bad(format!("skip({k}).count()")));
+            }
+            if msg.iter_attributes().skip(k).last().map(|a| a.get_type().value()) != want[k..].last().map(|w| w.0) {
+                return Err(bad(format!("skip({k}).last()")));
             }
         }
         for step in [2usize, 3] {
@@ -402,6 +430,16 @@ pub fn compare_clone(buf: &[u8], msg: &Message, view: &RefView, check_prop: &str
 pub fn receive(ctx: &mut Ctx, buf: &[u8], o: &PipeOpts) -> ScResult {
     // 1. demultiplexer peeking at the type (deliveries may be 0 or 1 byte long)
     let mt = g("MessageType::from_bytes", || MessageType::from_bytes(buf).map(|t| (t.class(), t.method(), t.is_response(), t.has_class(MessageClass::Error), t.has_method(t.method()), t.to_bytes(), format!("{t} {t:?}"))).is_ok())?;
+    // the `TryFrom<&[u8]>` spellings of the same entry points (message type, attribute header)
+    g("MessageType::try_from", || {
+        let _ = MessageType::try_from(buf).map(|t| format!("{t}"));
+    })?;
+    g("AttributeHeader::try_from", || {
+        let _ = AttributeHeader::try_from(buf).map(|h| format!("{h:?}"));
+        if buf.len() > 20 {
+            let _ = AttributeHeader::try_from(&buf[20..]).map(|h| format!("{h:?}"));
+        }
+    })?;
     if buf.len() < 2 {
         ctx.st.inc("probe.delivery_shorter_than_2_bytes");
     }
